@@ -60,6 +60,7 @@ def install_hooks():
 WSI_1_IN = 3            # a blank/comment line gets its own (not the scope's) indentation in 1 of 3 cases
 WS_AFTER_OPENER_1_IN = 4  # a scope opener is followed by blank/comment lines before its body in 1 of 4 cases
 BLOCK_IN_REPEATED_1_IN = 6   # 1 of 6 programs gets a Block inside an Alarm body / inside a macro that is then called 2-3 times
+RERUN_1_IN = 5          # 1 of 5 cases (without append follow-up) runs the method a second time after Restart / Stop + Start
 LATE_TRUE_1_IN = 5      # 1 of 5 Watch/Alarm conditions is false at the start and becomes true at a generated tick
 CUT_SHORT_1_IN = 7      # 1 of 7 programs with a macro gets the shape "call cut short by End block, macro called again"
 
@@ -236,7 +237,13 @@ def cases(draw, cfg: G.GenCfg, ticks: int, append_1_in: int = 5, keep_nested: bo
             if "c" in n:
                 likely(n["c"])
     likely(tree["body"])
-    return {"tree": tree, "traj": traj, "init": init, "ticks": ticks, "append": append, "excluded_nested": excluded}
+    rerun = None
+    if not append and draw(st.integers(1, RERUN_1_IN)) == 1:
+        # a second run of the same method on the same engine (no method save in between): Restart or Stop + Start, either
+        # after the method had all its ticks or somewhere in the middle of the run
+        rerun = {"how": draw(st.sampled_from(["restart", "stop-start"])),
+                 "at": ticks if draw(st.booleans()) else draw(st.integers(3, ticks))}
+    return {"tree": tree, "traj": traj, "init": init, "ticks": ticks, "append": append, "excluded_nested": excluded, "rerun": rerun}
 
 
 def valid_case(case) -> bool:
@@ -296,6 +303,10 @@ def valid_case(case) -> bool:
             if not (isinstance(p, list) and len(p) == 2 and isinstance(p[0], int) and isinstance(p[1], dict)
                     and all(k in ("In1", "In2", "Temp") and isinstance(v, (int, float)) for k, v in p[1].items())):
                 return False
+        rr = case.get("rerun")
+        if rr is not None and not (isinstance(rr, dict) and rr.get("how") in ("restart", "stop-start")
+                                   and isinstance(rr.get("at"), int) and not isinstance(rr.get("at"), bool) and 1 <= rr["at"] <= 2000):
+            return False
         if not isinstance(case.get("init", {}), dict) or not all(
                 k in ("In1", "In2", "Temp") and isinstance(v, (int, float)) for k, v in case.get("init", {}).items()):
             return False
@@ -402,6 +413,8 @@ class Trace:
         self.ticks: list = []           # per tick dict(no, time, block, state, status, ev_end, ws_started, ws_executed)
         self.aborted: str | None = None  # reason the judged prefix ends early (method error, not Running ...)
         self.append: dict | None = None  # result of the append follow-up
+        self.second = None               # Trace of a second run (after Restart / Stop+Start) of the same method, if the case has one
+        self.second_how = None
         self.final_state = None
 
 
@@ -450,38 +463,81 @@ def run_trace(case, follow_up: bool = True) -> Trace:
         h.set_inputs(**{k: float(v) for k, v in case.get("init", {}).items()})
         judged_end = None
 
+        cur_tr = [tr]
+        base = [0]          # event index at which the current run's event list begins
+
         def one_tick():
             o = h.tick()
             ms = h.method_state()
             rec = {"no": o.no, "time": o.time, "block": o.block, "state": o.state, "status": o.status,
-                   "ev_end": len(h.events), "inputs": dict(h.hw.inputs),
+                   "ev_end": len(h.events) - base[0], "inputs": dict(h.hw.inputs),
                    "ws_started": [i for i in ms.started_line_ids if i in ws_ids],
                    "ws_executed": [i for i in ms.executed_line_ids if i in ws_ids]}
-            tr.ticks.append(rec)
+            cur_tr[0].ticks.append(rec)
             return o
 
+        def run_ticks(t_, n, with_traj):
+            """tick n times; the judged prefix of the run ends before the first tick that is not Running / has a method error"""
+            end = None
+            for i in range(n):
+                if with_traj:
+                    ch = G.traj_at(case.get("traj", []), i)
+                    if ch:
+                        h.set_inputs(**{k: float(v) for k, v in ch.items()})
+                ev0 = len(h.events)
+                o = one_tick()
+                bad = None
+                if o.raised is not None:
+                    bad = "tick-raised:%s" % type(o.raised).__name__
+                elif o.state != "Running":
+                    bad = "state:%s" % o.state
+                elif any(e[1] == "method_error" for e in h.events[ev0:]):
+                    bad = "method-error"
+                if bad:
+                    t_.aborted = bad
+                    end = ev0
+                    t_.ticks.pop()
+                    break
+            t_.events = list(h.events[base[0]:] if end is None else h.events[base[0]:end])
+
+        rerun = case.get("rerun") if not case.get("append") else None
         h.engine.execute_control_command_from_user("Start")
         o = one_tick()
-        for i in range(case["ticks"]):
-            ch = G.traj_at(case.get("traj", []), i)
-            if ch:
-                h.set_inputs(**{k: float(v) for k, v in ch.items()})
-            ev0 = len(h.events)
-            o = one_tick()
-            bad = None
-            if o.raised is not None:
-                bad = "tick-raised:%s" % type(o.raised).__name__
-            elif o.state != "Running":
-                bad = "state:%s" % o.state
-            elif any(e[1] == "method_error" for e in h.events[ev0:]):
-                bad = "method-error"
-            if bad:
-                tr.aborted = bad
-                judged_end = ev0
-                tr.ticks.pop()
-                break
-        tr.events = list(h.events if judged_end is None else h.events[:judged_end])
+        run_ticks(tr, min(case["ticks"], rerun["at"]) if rerun else case["ticks"], True)
         tr.final_state = h.method_state()
+        # ---- second run of the same method on the same engine: Restart, or Stop followed by Start (no method save) ----
+        if rerun and tr.aborted is None:
+            n_start = sum(1 for e in h.events if e[1] == "start")
+            try:
+                h.user("Restart" if rerun["how"] == "restart" else "Stop")
+                started = False
+                for i in range(14):
+                    o = h.tick()
+                    if rerun["how"] != "restart" and o.state == "Stopped" and not started:
+                        try:
+                            h.user("Start")
+                            started = True
+                        except ValueError:
+                            pass
+                    if sum(1 for e in h.events if e[1] == "start") > n_start:
+                        break
+            except ValueError:
+                pass
+            idx = [j for j, e in enumerate(h.events) if e[1] == "start"]
+            if len(idx) > n_start and h.state == "Running":
+                t2 = Trace()
+                t2.prog = prog
+                t2.is_second = True
+                base[0] = idx[n_start]
+                cur_tr[0] = t2
+                # the tick in which the run started belongs to run 2
+                t2.ticks.append({"no": h.tick_no, "time": 0.0, "block": h.engine._system_tags["Block"].get_value(), "state": h.state,
+                                 "status": "", "ev_end": len(h.events) - base[0], "inputs": dict(h.hw.inputs),
+                                 "ws_started": [], "ws_executed": []})
+                run_ticks(t2, case["ticks"], False)
+                t2.final_state = h.method_state()
+                tr.second = t2
+                tr.second_how = rerun["how"]
         # ---- follow-up: append a Mark below the trailing blank/comment lines (one live edit) -------------
         if follow_up and case.get("append") and tr.aborted is None:
             pos = append_position(prog)
@@ -1083,12 +1139,14 @@ def analyse(tr: Trace):
 
     # Block tag at every tick end: replay the active chain per tick
     cx2_active: list = []
+    any_block_this_run = [False]
     ei = 0
     for t in tr.ticks:
         while ei < min(t["ev_end"], len(tr.events)):
             e = tr.events[ei]
             if e[1] == "block_start" and e[2] in prog.block and prog.block[e[2]] not in cx2_active:
                 cx2_active.append(prog.block[e[2]])
+                any_block_this_run[0] = True
             elif e[1] == "block_end" and prog.block.get(e[2]) in cx2_active:
                 cx2_active.remove(prog.block[e[2]])
             ei += 1
@@ -1102,7 +1160,10 @@ def analyse(tr: Trace):
             if stop["v5"] is not None:      # this tick end precedes the violation found in the event pass
                 v5.clear()
                 stop["v5"] = None
-            if want is None:
+            if want is None and getattr(tr, "is_second", False) and not any_block_this_run[0]:
+                # second run of the method (after Restart / Stop + Start): no block has started in this run yet
+                cls = "stale-from-previous-run"
+            elif want is None:
                 cls = "names-ended-block" if got in prog.block else "unknown-name"
             elif got is None:
                 cls = "empty-while-active"
